@@ -17,9 +17,10 @@ import numpy as np
 from .. import coqrun
 from ..core import Corr
 from ..coqrun import cz, cstr, clist, copt, cbool, cnat
-from ..translate import writer_tables
+from ..translate import writer_tables, text_tables
 from ..translate.writer_tables import cb64
 from . import c08
+from . import text_history
 
 PID = "C07"
 ALLOWED_AXIOMS = set()
@@ -30,10 +31,12 @@ FORMATS = ["xyz", "xyz+", "psi4"]
 
 TRUSTED = [
     "hand-written model coq/Model/Text.v of from_string's Cartesian readers (recognisers equivalent to the regexes on ASCII text; line filters), tied by differential execution against `re` and against from_string (this file)",
+    "fail-closed translator harness/translate/text_tables.py (keyword alternatives, unit words, separator class, exponent letters out of the module's compiled regular expressions) -> coq/Gen/TextTables.v, proved equal to the hand-written recognisers (C07_recognisers_use_the_source_tables)",
     "the writer model coq/Model/Writers.v + Gen/WriterTables.v (see C08) used in the round-trip theorems",
     "validation after parsing (from_input_arrays) is NOT modelled: the comparison is on the dictionary from_string hands to it, observed by wrapping from_input_arrays at run time",
     "CPython float(str) is modelled as exact decimal -> nearest binary64 (Common/WBin64.v), int(str) as digit value with the 4300-digit limit",
     "the oracles in this file (field-wise round trip, hash round trip through Molecule.to_string / to_file / from_file / from_data, layout rewrites, exception classes)",
+    "order-independence oracle (harness/props/text_history.py): the same texts under every dtype and dtype=None in sequence against the reversed sequence in a fresh interpreter",
 ]
 ASSUMPTIONS = [
     "ASCII text only (str.strip / \\s / \\w / IGNORECASE on non-ASCII characters are outside the model and never generated)",
@@ -44,6 +47,7 @@ ASSUMPTIONS = [
 
 def translate(ctx):
     writer_tables.generate(ctx.repo)
+    text_tables.generate(ctx.repo)
 
 
 # ------------------------------------------------------------------------------------------------
@@ -528,7 +532,7 @@ def correspond(ctx):
     corr = Corr()
     corr.rule = ("(lex) recognisers vs re on seeded/mutated/random tokens and lines; (valid) validated molecules x {xyz, xyz+, psi4} x "
                  "{Bohr, Angstrom} x precision 8-14 written by the implementation and parsed by both; (layout) six kinds of rewrites of "
-                 "those texts; (mutation/soup) byte-level mutations of valid texts and token soups under each dtype; a case is "
+                 "those texts; (cross) a valid text of one format read as the other two; (mutation/soup) byte-level mutations of valid texts and token soups under each dtype; a case is "
                  "non-trivial when the implementation got as far as handing a dictionary to from_input_arrays; distinct = distinct (dtype, text)")
     rng = ctx.rng
     scratch = os.path.join(coqrun.VERIF, "build", "scratch_c07_files")
@@ -561,6 +565,9 @@ def correspond(ctx):
         text = write(molrec, fmt, units, prec)
         cases.append(("valid", fmt, text, {"arrays": arrays, "units": units, "prec": prec}))
         valid_texts.append((fmt, text))
+        for other in FORMATS:
+            if other != fmt:
+                cases.append(("cross", other, text, {}))          # a valid text of one format read as another
         for kind in REWRITES:
             for _rep in range(2 if ctx.thorough else 1):
                 t2 = rewrite(rng, fmt, text, kind)
@@ -655,6 +662,24 @@ def correspond(ctx):
         if bad:
             corr.failures.append({"stream": "hash", "case": {"arrays": arrays, "fmt": fmt, "via_file": via_file}, "what": bad, "observed": text})
 
+    # ---- history: valid texts under every dtype and under auto-detection, one after the other, in this process (after all
+    #      of the above) and in a fresh interpreter in reverse order: every call must answer the same
+    calls = []
+    for fmt, text in valid_texts[:(40 if ctx.thorough else 8)]:
+        ds = FORMATS + [None]
+        rng.shuffle(ds)
+        calls.extend([text, d] for d in ds)
+    try:
+        bad = text_history.check_from_string(calls)
+        corr.count("history", len(calls))
+        if bad:
+            i, a, b = bad
+            corr.failures.append({"stream": "history", "case": {"calls": calls, "index": i, "dtype": calls[i][1], "text": calls[i][0]},
+                                  "what": f"call {i} (dtype={calls[i][1]}) answers differently after the preceding calls than in a fresh "
+                                          f"interpreter (reverse order)", "observed": [a, b]})
+    except Exception as e:
+        corr.errors.append(f"history stream: {e!r}")
+
     ctx.log(f"{len(terms)} parse cases, {len(lex_terms)} recogniser cases, {len(txt_terms)} text cases; evaluating the model")
     bad, errors = c08.eval_with_retry(ctx, "C07", REQ, PRELUDE, "check_parse", terms, 250, "string * string * outcome processed_b")
     corr.errors.extend(f"parse shard {k}: {e}" for k, e in errors)
@@ -698,6 +723,11 @@ def search(ctx, corr, reasons):
 def replay(ctx, rp):
     case = rp["case"]
     stream = rp.get("stream", "")
+    if stream == "history":
+        bad = text_history.check_from_string(case["calls"])
+        return {"input": {"calls": len(case["calls"]), "index": case.get("index")}, "implementation": list(bad[1:]) if bad else None,
+                "oracle": (f"call {bad[0]} answers differently after the preceding calls than in a fresh interpreter" if bad else None),
+                "fails": bool(bad)}
     if stream == "hash":
         scratch = os.path.join(coqrun.VERIF, "build", "scratch_c07_files")
         os.makedirs(scratch, exist_ok=True)
@@ -751,28 +781,36 @@ TECHNIQUE = ("Coq proof over a hand-written Gallina model of from_string's Carte
              "correspondence (recognisers vs re; parser vs from_string) + round-trip / layout / totality oracles on the implementation")
 DESIGN_REF = "DESIGN.md §6 C07"
 LEVEL_TEXT = (
-    "Machine-checked (Coq 8.16.1, no axioms) theorems about Model/Text.v (reader) and Model/Writers.v + Gen/WriterTables.v (writer): "
-    "C07_roundtrip_psi4 — for EVERY molecule psi4 text can carry (any number of atoms and fragments, ghosts, labels, charges, "
-    "multiplicities, frame flags), either unit, any width/precision: parse(\"psi4\", characters written by the writer model) = the "
-    "written labels, printed coordinates, total and fragment charge/multiplicity, fragment boundaries, fix flags and unit (induction "
-    "over fragment and atom lists; string-level lemmas C07_number_reads_back, C07_atom_line_reads_back; the psi4 format strings come "
-    "from the regenerated table); C07_psi4_reader_on_fragment_blocks; C07_roundtrip_xyzplus_lines (xyz+ writer lines -> xyz+ reader, "
-    "every molecule, level of lines), C07_roundtrip_xyzplus_partial / C07_roundtrip_xyz_partial (the line filters on any accepted lines); C07_total, C07_total_short (any text of <= 4300 characters: dictionary, MoleculeFormatError or outside-the-model), "
-    "C07_total_refuted (witness of the int() digit-limit ValueError); layout: C07_layout_outer_whitespace, C07_layout_comment, "
-    "C07_layout_comment_line, C07_layout_separators, C07_layout_keyword_case, C07_psi4_text_of_lines with "
-    "C07_layout_blank_lines_psi4 and C07_layout_line_padding_psi4, C07_layout_insensitive (the equivalence generated by outer white "
-    "space, appended comment, comment line, blank line, line padding preserves parse(psi4)), C07_numeral_plus / _leading_zero / _exponent_letter. The reader model "
-    "is tied to the implementation on every run: every recogniser against the module's own compiled regular expressions, "
-    "filter_comments/strip against the functions, and parse against from_string on valid texts, seven kinds of layout rewrites, byte-level "
-    "mutations and token soups (the dictionary handed to from_input_arrays is observed by wrapping that function); oracles on the "
-    "implementation: field-wise round trip, Molecule -> string/file -> Molecule hash equality, layout invariance, exception classes.")
+    "Machine-checked (Coq 8.16.1, no axioms) theorems about Model/Text.v (reader) and Model/Writers.v + Gen/WriterTables.v (writer). "
+    "Round trip, on CHARACTERS, for EVERY molecule the format can carry, either unit, any width/precision: C07_roundtrip_psi4 (any "
+    "number of atoms and fragments, ghosts, labels, charges, multiplicities, frame flags: parse(psi4, written characters) = the written "
+    "labels, printed coordinates, total and fragment charge/multiplicity, fragment boundaries, fix flags and unit), "
+    "C07_roundtrip_psi4_auto (the same through dtype=None), C07_roundtrip_xyzplus, C07_roundtrip_xyz (default atom/ghost formats); "
+    "building blocks C07_psi4_reader_on_fragment_blocks, C07_xyzplus_reader_on_lines, C07_xyz_reader_on_lines, C07_number_reads_back, "
+    "C07_atom_line_reads_back. Totality: C07_total, C07_total_short (any text of <= 4300 characters: dictionary, MoleculeFormatError or "
+    "outside-the-model), C07_total_auto / C07_total_auto_short (dtype=None cascade), C07_total_refuted (witness of the int() "
+    "digit-limit ValueError), C07_autodetect_xyzplus_refuted (witness: an xyz+ text detected as strict xyz loses charge/multiplicity). "
+    "Layout: C07_layout_outer_whitespace, C07_layout_comment, C07_layout_comment_line, C07_layout_separators, C07_layout_keyword_case, "
+    "C07_layout_symbol_case, C07_psi4_text_of_lines / C07_xyz_text_of_lines with C07_layout_blank_lines_psi4 / _xyz and "
+    "C07_layout_line_padding_psi4 / _xyz, C07_layout_insensitive (the equivalence generated by outer white space, appended comment, "
+    "comment line, blank line, line padding preserves parse(psi4)), C07_numeral_plus / _leading_zero / _exponent_letter. The reader "
+    "model is tied to the implementation on every run: C07_recognisers_use_the_source_tables (the keyword / unit-word / separator / "
+    "exponent-letter tables inside the recognisers = the tables regenerated from the module's regular expressions), "
+    "every recogniser against the module's own compiled regular expressions, "
+    "filter_comments/strip against the functions, parse against from_string (explicit dtype and dtype=None) on valid texts, seven kinds "
+    "of layout rewrites, byte-level mutations and token soups (the dictionary handed to from_input_arrays is observed by wrapping that "
+    "function); oracles on the implementation: field-wise round trip, Molecule -> string/file -> Molecule hash equality, layout "
+    "invariance, exception classes, repeated-call stability.")
 LEVEL_NOTE = (
-    "Not modelled: validation after parsing (from_input_arrays: C04/C05/C06), so 'validated molecule' and 'unchanged hash' are checked on "
-    "the implementation only (oracle), and letter case of element symbols / ghost wrappers is only tested (layout:case stream), "
-    "there is no theorem for it; the xyz+ round trip is proved from the writer's lines (not from characters), strict xyz only as a line-filter statement; "
-    "separators, keyword case and numerals are recogniser-level theorems outside the layout_equiv relation; "
-    "equivalent numerals are proved equal as decimals for three rewrite kinds (trailing zeros and mantissa/exponent shifts only tested). "
-    "Trusted: Coq kernel + vm_compute; hand-written recognisers (differentially tied to re on ASCII); float(str) = nearest binary64 and "
-    "int(str) models; the harness. Outside the model: non-ASCII text, pubchem and efp lines, psi4+ / auto-detection. Findings: int() "
-    "4300-digit ValueError (known), OverflowError for 309-4300-digit multiplicities (known), filter_comments deleting the character in "
-    "front of '#' (found here, repaired in /repo by 4ac4e1b, kept as a regression case).")
+    "Clause map: round trip -> roundtrip_psi4(_auto)/xyzplus/xyz (characters); unchanged hash -> oracle only (validation after parsing "
+    "is C04/C05/C06, hash C11); layout -> comments/outer whitespace for all dtypes, blank lines and line padding for psi4 and for "
+    "xyz/xyz+ (after the two positional header lines), separators, keyword case, symbol case (recognised alike; the identification of "
+    "'he' with 'He' is C06) and three numeral rewrites as recogniser-level theorems (trailing zeros / shifted exponents give another "
+    "decimal of the same value: oracle + float(str) correspondence only); one relation layout_equiv only for psi4; totality -> the "
+    "parse stage for the three dtypes and for dtype=None; the error classes raised after parsing are checked on the implementation. "
+    "Not modelled: from_input_arrays; psi4+ (zmatrix dialect: the auto-detection model answers 'outside the model' when the three "
+    "Cartesian readers refuse a text). Trusted: Coq kernel + vm_compute; hand-written recognisers (differentially tied to re on "
+    "ASCII); float(str) = nearest binary64 and int(str) models; the harness. Outside the model: non-ASCII text, pubchem and efp "
+    "lines. Findings: int() 4300-digit ValueError (known), OverflowError for 309-4300-digit multiplicities (known), auto-detection "
+    "shadowing xyz+ by strict xyz (known, C07_autodetect_xyzplus_refuted), filter_comments deleting the character in front of '#' "
+    "(found here, repaired in /repo by 4ac4e1b, kept as a regression case), D exponents (repaired by 67444b7).")
